@@ -671,7 +671,7 @@ fn foreign_reply_first(c: &mut Ctx, m: &'static Merchant) {
 }
 
 pub fn run(c: &mut Ctx) {
-    c.note("rule", json!("histories of payments (either sign, zero, boundary amounts) with 0-3 (quick) faults from the alphabet {random pair, honest reply re-blinded / shifted / swapped, evil-merchant signatures on states with altered balances, channel id, lock or second slot, the other message type for the same state, second merchant key, right signature under a wrong blinding factor, replies recorded in other sessions / earlier payments, all-identity} injected before the honest reply at each of the four replies; after every call a closing message from a copy of the state is checked against the merchant's close check, the ledger and the set of disclosed locks. Distinct = distinct (stage, fault kind) injections and distinct (stage, observation point, ledger state) closes."));
+    c.note("rule", json!("histories of payments (either sign, zero, boundary amounts) with 0-3 (quick) faults from the alphabet {random pair, honest reply re-blinded / shifted / swapped, evil-merchant signatures on states with altered balances, channel id, lock or second slot, the other message type for the same state, second merchant key, right signature under a wrong blinding factor, replies recorded in other sessions / earlier payments, all-identity} injected before the honest reply at each of the four replies; after every call a closing message from a copy of the state is checked against the merchant's close check, the ledger and the set of disclosed locks. Distinct = distinct (stage, fault kind) injections and distinct (stage, observation point, ledger state) closes. Added later: in-memory identity replies for the four merchant calls, replies made of small-order points. Channel id changed in one of its two top bits; another customer's honest reply delivered first at each of the four reply points."));
     let m = match fixtures::merchant(c.seed, "m0") {
         Ok(m) => m,
         Err(e) => return c.inconclusive(&e),
